@@ -99,10 +99,11 @@ func samScribble(s *sam.SAM) {
 func samRead(data []byte, mode string) (items []samItem, panicked bool, capped bool) {
 	items = []samItem{}
 	panicked, _ = catch(func() {
-		if failedReadsFirst {
-			for _, t := range malformedTexts["sam"] {
-				for range sam.Reader(strings.NewReader(t)) {
-				}
+		if failedReadsFirst { // (one malformed text before each recorded read, in turn: a pool hands back what was put last)
+			ts := malformedTexts["sam"]
+			t := ts[malformedNext%len(ts)]
+			malformedNext++
+			for range sam.Reader(strings.NewReader(t)) {
 			}
 		}
 		if mode == "header" {
